@@ -15,12 +15,30 @@ var shrinkTimes = []time.Duration{0, 1, 50 * time.Millisecond, time.Second, 30 *
 
 var nearDeadline = []time.Duration{24*time.Hour - 10*time.Second, 24 * time.Hour, 25 * time.Hour, 24*time.Hour - time.Minute}
 
+var nameAlphabet = []rune("abcXYZ019-_/\\: .*?#%&+=@!~'\"()[]{}<>|,;^$`éßñЖяΩ日本語한글😀́​ ")
+
+var reservedNames = []string{"CON", "con", "Con", "PRN", "aux", "NUL", "COM1", "com9", "LPT1", "lpt0", "COM¹", "LPT³", "CON.txt", "CONIN$"}
+
 func genName(t *Tape, hostile bool) string {
 	if !hostile {
 		return fmt.Sprintf("TestSim%d", t.Int("name.n", 0, 3))
 	}
-	names := []string{"TestSim", "TestSim/sub", "Test Sim:x\\y", "Тест/日本語/ü", "CON", "com1", "Test.Sim*?", "TestSim/a/b/c#01", "T-_9", "LPT¹"}
-	return names[t.Pick("name.hostile", len(names))]
+	switch t.Weighted("name.kind", 3, 2, 5) {
+	case 0:
+		return []string{"TestSim", "TestSim/sub", "Test Sim:x\\y", "Тест/日本語/ü", "Test.Sim*?", "TestSim/a/b/c#01", "T-_9"}[t.Pick("name.fixed", 7)]
+	case 1:
+		n := reservedNames[t.Pick("name.reserved", len(reservedNames))]
+		if t.Chance("name.reserved_sub", 30) {
+			n = "Test/" + n
+		}
+		return n
+	}
+	n := t.Int("name.len", 1, 30)
+	rs := make([]rune, n)
+	for i := range rs {
+		rs[i] = nameAlphabet[t.Pick("name.rune", len(nameAlphabet))]
+	}
+	return "T" + string(rs)
 }
 
 type genCounts struct {
